@@ -4,6 +4,7 @@ import ConjureVerif.Props.C05
 import ConjureVerif.Props.C06
 import ConjureVerif.Props.C07
 import ConjureVerif.Props.C08
+import ConjureVerif.Props.C10
 import ConjureVerif.Props.C11
 import ConjureVerif.Props.C12
 import ConjureVerif.Props.C13
